@@ -27,6 +27,7 @@ type Config struct {
 	Package   string          `json:"package"`   // sub-package under zzverif (directory name in /verif/harness)
 	InPackage string          `json:"inpackage"` // if set, harness files are overlaid into this repo package dir instead
 	Scale     []ScaleRule     `json:"scale"`
+	Models    []string        `json:"models"` // extra model packages under /verif/harness to load
 	Harnesses []HarnessConfig `json:"harnesses"`
 	Functions []string        `json:"functions_encoded"`
 	Stubs     []string        `json:"stubs"`
@@ -48,6 +49,7 @@ type HarnessConfig struct {
 	Expect      string           `json:"expect"`   // "violation" for vacuity witnesses
 	Concrete    int              `json:"concrete"` // number of concrete translator-validation runs
 	MaxSeconds  int              `json:"max_seconds"`
+	NoValidate  bool             `json:"novalidate"` // outcome is schedule-dependent natively: not used for translator validation
 }
 
 type ScaleRule struct {
